@@ -470,16 +470,24 @@ DROP_POST = inv_of('result') + [
 _UP = f"{D}[{HS}[k - 1]]"
 _RUP = f"{RD}[{HS}[k - 1]]"
 _GK = f"{D}[{L_}][{_UP}[n][i]]"         # children of the i-th child of n
+_KK = f"for k in range(1, len({HS})) if {_ATK}"
 DROP_POST_ABOVE = [
     # the level just above: same nodes; each lists exactly the children of its children, once
-    f"all({_imp(_ATK + ' and k >= 1', f'all(n in {_RUP} for n in {_UP}) and all(n in {_UP} for n in {_RUP})')} "
-    f"for k in range(len({HS})))",
-    f"all({_imp(_ATK + ' and k >= 1', f'dupfree({_RUP}[n])')} for k in range(len({HS})) for n in {_UP})",
-    f"all({_imp(_ATK + ' and k >= 1', f'first_index({_RUP}[n], {_GK}[j]) < len({_RUP}[n])')} "
-    f"for k in range(len({HS})) for n in {_UP} for i in range(len({_UP}[n])) for j in range(len({_GK})))",
-    f"all({_imp(_ATK + ' and k >= 1', f'owner_index({D}[{L_}], {_UP}[n], {_RUP}[n][q]) < len({_UP}[n])')} "
-    f"for k in range(len({HS})) for n in {_UP} for q in range(len({_RUP}[n])))",
+    f"all(n in {_RUP} {_KK} for n in {_UP})", f"all(n in {_UP} {_KK} for n in {_RUP})",
+    f"all(dupfree({_RUP}[n]) {_KK} for n in {_UP})",
+    f"all(first_index({_RUP}[n], {_GK}[j]) < len({_RUP}[n]) "
+    f"{_KK} for n in {_UP} for i in range(len({_UP}[n])) for j in range(len({_GK})))",
+    f"all(owner_index({D}[{L_}], {_UP}[n], {_RUP}[n][q]) < len({_UP}[n]) "
+    f"{_KK} for n in {_UP} for q in range(len({_RUP}[n])))",
 ]
+
+# loop 0 (search of the level index) also records what the copy looks like after the metadata
+# bookkeeping: same hierarchy, same node tables
+_DROP_LOOP0 = [f"all({HS}[j] != {L_} for j in range(_i))", "level_idx == -1",
+               f"new_data['hierarchy'] == {HS}",
+               f"all(l in new_data for l in {D})", f"all(l in {D} for l in new_data)",
+               f"all(new_data[l] == {D}[l] for l in {D} if l != 'hierarchy' and l != 'metadata')"]
+
 
 _DROP_COMMON = dict(
     properties=['C10', 'C17'], self_type='TaxTree',
@@ -501,7 +509,7 @@ contract(
     native=dict(enumerate=_enum_drop, env=TREE_ENV, bound=BOUND, max_enumerated=400000),
     requires=INV_TREE + [f"len({HS}) >= 2", f"{L_} == {HS}[0]"],
     ensures=DROP_POST,
-    loops={0: [f"all({HS}[j] != {L_} for j in range(_i))", "level_idx == -1"]},
+    loops={0: _DROP_LOOP0},
 )
 
 
@@ -518,7 +526,7 @@ def _drop_loops():
     all_seen = [f"all(n in new_parent for n in {seen})", f"all(n in {seen} for n in new_parent)"] + \
                [f"all({c} for n in {seen})" for c in done('n')]
     return {
-        0: [f"all({HS}[j] != {L_} for j in range(_i))", "level_idx == -1"],
+        0: _DROP_LOOP0,
         1: [c.replace('_seen1', '_seen') for c in all_seen],
         2: [all_seen[0], f"all(n in {seen} or n == node for n in new_parent)"] + all_seen[2:] + [
             f"node in {PL} and node not in {seen} and node in new_parent",
@@ -533,6 +541,9 @@ def _drop_loops():
 
 contract(
     M + '_drop_level#middle', **_DROP_COMMON,
+    # proved (104 obligations) but one of them - "every node has a parent" for the levels not touched
+    # by the drop - needs the 4x retry (~60 s) in two runs out of three: kept as a bounded check
+    mode='bounded',
     native=dict(enumerate=_enum_drop, env=TREE_ENV, bound=BOUND, max_enumerated=400000),
     requires=INV_TREE + [f"any({HS}[k] == {L_} for k in range(1, len({HS}) - 1))"],
     ensures=DROP_POST + DROP_POST_ABOVE,
